@@ -1,0 +1,37 @@
+//! Verification hooks (cargo feature `verif-hooks`, off by default).
+//!
+//! Nothing in here changes the behaviour of the library; it only exposes
+//! crate-private items to an external conformance harness and records the
+//! challenge scalars the protocol code derives.
+
+pub use crate::inner_product_proof::{inner_product, InnerProductProof};
+pub use crate::util::exp_iter;
+
+use ark_serialize::CanonicalSerialize;
+use std::cell::RefCell;
+use std::vec::Vec;
+
+thread_local! {
+    static CHALLENGES: RefCell<Option<Vec<(Vec<u8>, Vec<u8>)>>> = RefCell::new(None);
+}
+
+/// Start (or restart) recording challenge scalars on this thread.
+pub fn start_recording_challenges() {
+    CHALLENGES.with(|c| *c.borrow_mut() = Some(Vec::new()));
+}
+
+/// Stop recording and return `(label, compressed scalar bytes)` in derivation order.
+pub fn take_challenges() -> Vec<(Vec<u8>, Vec<u8>)> {
+    CHALLENGES.with(|c| c.borrow_mut().take().unwrap_or_default())
+}
+
+/// Called from `TranscriptProtocol::challenge_scalar`.
+pub(crate) fn record_challenge<S: CanonicalSerialize>(label: &[u8], scalar: &S) {
+    CHALLENGES.with(|c| {
+        if let Some(log) = c.borrow_mut().as_mut() {
+            let mut bytes = Vec::new();
+            scalar.serialize_compressed(&mut bytes).unwrap();
+            log.push((label.to_vec(), bytes));
+        }
+    });
+}
